@@ -78,9 +78,28 @@ def run_case(job):
     except Exception as e:  # noqa
         out["construct"] = {"raised": type(e).__name__}
         return out
+    return observe(job, root, job["state"], out)
+
+
+def run_sequence(job):
+    """ONE expression tree evaluated on several states one after the other (the way an Operator object is re-used):
+    every evaluation must depend on the state it is given only.  Returns one result per state."""
+    base = {"eps": fhex(NE.EPSILON), "digits": NE.DEFAULT_DIGITS, "nums": {}}
+    ast = PDDLTokenizer(pddl_str=job["text"]).parse()
+    numerals(ast, base["nums"])
+    try:
+        root = construct_expression_tree(ast, mk_funcs(job["funcs"]))
+    except RecursionError:
+        raise
+    except Exception as e:  # noqa
+        return [dict(base, construct={"raised": type(e).__name__}) for _ in job["states"]]
+    return [observe(job, root, st, dict(base, nums=dict(base["nums"]))) for st in job["states"]]
+
+
+def observe(job, root, state_entries, out):
     out["construct"] = {"ok": True}
     tree = NumericalExpressionTree(root)
-    state = mk_state(job["state"])
+    state = mk_state(state_entries)
     set_expression_value(root, state)
     out["pddl"] = tree.to_pddl()
     out["calc"] = attempt(lambda: fhex(calculate(root)))
@@ -100,7 +119,7 @@ def run_case(job):
         ast2 = PDDLTokenizer(pddl_str=out["pddl"]).parse()
         numerals(ast2, out["nums"])
         root2 = construct_expression_tree(ast2, mk_funcs(job["funcs"]))
-        set_expression_value(root2, mk_state(job["state"]))
+        set_expression_value(root2, mk_state(state_entries))
         return {"pddl": NumericalExpressionTree(root2).to_pddl(), "calc": attempt(lambda: fhex(calculate(root2)))}
     out["re"] = attempt(reread)
     return out
